@@ -563,8 +563,8 @@ Definition remove_unused (ns : nodes) (start : nid) : cres nodes :=
 Definition detect_fuel (ns : nodes) : nat := S (List.length ns).
 Definition flatten_fuel (ns : nodes) : nat := 3 + List.length ns.
 
-(* compiler.compile *)
-Definition compile (es : list entry) (cx : ctx) (svc : string) (ords : list (list nid)) : cres graph :=
+(* compiler.compile, with the orders of the flatten passes given explicitly *)
+Definition compile_ord (es : list entry) (cx : ctx) (svc : string) (ords : list (list nid)) : cres graph :=
   match assemble es cx svc with
   | Err e => Err e
   | Ok (st, start, router) =>
@@ -587,6 +587,44 @@ Definition compile (es : list entry) (cx : ctx) (svc : string) (ords : list (lis
         end
       end
     end
+  end.
+
+(* flattenAdjacentSplitterNodes as it is since 2e58eb8: the node ids are collected from the map
+   c.nodes (in the unspecified order [mo]) and sorted with sort.Strings; every pass visits them in
+   that order.  Only splitter nodes are acted on ("continue" for the others), and their ids
+   "splitter:" + name + ".default.default" sort like the byte strings name + ".default.default". *)
+Fixpoint lex_leb (a b : list N) : bool :=
+  match a, b with
+  | [], _ => true
+  | _ :: _, [] => false
+  | x :: a', y :: b' => if N.ltb x y then true else if N.eqb x y then lex_leb a' b' else false
+  end.
+
+Definition name_key (s : string) : list N := bytes_of_string (s ++ ".default.default")%string.
+Definition name_leb (a b : string) : bool := lex_leb (name_key a) (name_key b).
+
+Fixpoint insert_sorted {A} (leb : A -> A -> bool) (x : A) (l : list A) : list A :=
+  match l with
+  | [] => [x]
+  | y :: l' => if leb x y then x :: l else y :: insert_sorted leb x l'
+  end.
+Fixpoint isort {A} (leb : A -> A -> bool) (l : list A) : list A :=
+  match l with [] => [] | x :: l' => insert_sorted leb x (isort leb l') end.
+
+Definition splitter_names (l : list nid) : list string :=
+  flat_map (fun k => match k with NSplitter s => [s] | _ => [] end) l.
+
+Definition sorted_order (mo : list nid) (ns : nodes) : list nid :=
+  map NSplitter (isort name_leb (splitter_names (eff_order mo ns))).
+
+Definition go_order (mo : list nid) (ns : nodes) : list (list nid) :=
+  repeat (sorted_order mo ns) (flatten_fuel ns).
+
+(* compiler.compile; [mo] is the iteration order of the Go map c.nodes when the ids are collected *)
+Definition compile (es : list entry) (cx : ctx) (svc : string) (mo : list nid) : cres graph :=
+  match assemble es cx svc with
+  | Err e => Err e
+  | Ok (st, start, router) => compile_ord es cx svc (go_order mo (to_nodes svc st router))
   end.
 
 (* ------------------------------------------------------------------ write-time validation *)
@@ -612,13 +650,30 @@ Definition is_graph_kind (e : entry) : bool :=
 
 Definition ename (e : entry) : string := snd (ekey e).
 
+(* names of the graph entries that list [n] among their related services: one lookup in the "link" index *)
+Definition linkers (store : list entry) (n : string) : list string :=
+  map ename (filter (fun e => is_graph_kind e && memb String.eqb n (related e)) store).
+
+(* the breadth-first walk over the link index (since f9df4b1): every chain that can reach the name *)
+Fixpoint link_closure (fuel : nat) (store : list entry) (queue seen : list string) : list string :=
+  match fuel with
+  | O => seen
+  | S f =>
+    match queue with
+    | [] => seen
+    | q :: queue' =>
+      let fresh := dedup String.eqb (filter (fun x => negb (memb String.eqb x seen)) (linkers store q)) in
+      link_closure f store (queue' ++ fresh) (seen ++ fresh)
+    end
+  end.
+
 (* checkChains of validateProposedConfigEntryInServiceGraph, computed on the stored entries
    BEFORE the write: for proxy-defaults every name with a graph entry; otherwise the written
-   name and the names of graph entries that list it among their related services *)
+   name and every chain that reaches it through router / splitter / resolver entries *)
 Definition affected (store : list entry) (k : ekind * string) : list string :=
   match fst k with
   | KProxy => map ename (filter is_graph_kind store)
-  | _ => snd k :: map ename (filter (fun e => is_graph_kind e && memb String.eqb (snd k) (related e)) store)
+  | _ => link_closure (2 + List.length store) store [snd k] [snd k]
   end.
 
 Fixpoint remove_key (store : list entry) (k : ekind * string) : list entry :=
